@@ -242,7 +242,19 @@ def run_shard(seed, shard, n_cases, tier):
     CS = setup()
     per_kind = {}
     for i in range(n_cases):
+        todo = []
         for case in gen_cases(rng, i):
+            todo.append(case)
+            if case["form"] == "search" and "mem" in case.get("checks", ()) and rng.random() < 0.2:
+                # the same request again in the same process with other element sizes: the answer must be judged against ITS OWN
+                # constraint (whatever the search remembers from the first request must not be reused)
+                again = dict(case)
+                again["sizes"] = [rng.choice([1, 2, 4, 8]) for _ in case["sizes"]]
+                if again["sizes"] != case["sizes"]:
+                    again["family"] = case["family"] + ":repeated-with-other-element-sizes" if ":" not in case["family"] else case["family"]
+                    todo.append(again)
+                    R.bump(res, "requests_repeated_with_other_element_sizes")
+        for case in todo:
             seen_kinds = set()
             for v in run_case(case, res):
                 if v["kind"] in seen_kinds:
